@@ -55,6 +55,12 @@ CHECKS = {
         note="row order inside disk-shuffled partitions is compared as a multiset",
         ref="§3 C14",
     ),
+    "C08": dict(
+        technique="property-based testing across interpreters (hash seeds, construction orders) + metamorphic single-site mutations against an independent structural fingerprint",
+        text="Generated program batches are rebuilt in fresh interpreters with other PYTHONHASHSEEDs and construction orders and must produce identical expression names and task keys; inside one process every node, every single-site program variant and every single-operand perturbation must satisfy name(e1)==name(e2) <=> S(e1)==S(e2) for an independently computed structural fingerprint S. Bounded exploration.",
+        note="delayed-backed queries excluded from cross-process comparison; disk-shuffle task keys carry a random store token by design (names and output keys compared instead)",
+        ref="§3 C08",
+    ),
     "C09": dict(
         technique="property-based testing with a validity predicate over materialised task graphs (generated programs x stages, sibling-variant templates)",
         text="For every stage of generated programs the graph dict is scanned: output keys, closure of key references incl. fused sub-graphs, acyclicity, per-expression layer collisions (also across several values of one program computed together), planner objects, cloudpickle, execution. Bounded exploration.",
